@@ -10,8 +10,10 @@ package main
 //   remap of n pages   -> am n    (Device.allocateMultiplePages(n))
 //   free / rmpage      -> add …   (addSinglePAddr of the physical pages, read from the page table first)
 // Implementation answer per op = physical pages now mapped (read back from the page table) + the free
-// blocks (VerifBuddyFreeBlocks). Oracle failures are raised only for allocation-only histories; the
-// known buddy findings (they need a free) are covered by c10.go.
+// blocks (VerifBuddyFreeBlocks). Oracles: `C10.buddy.alloc_only.*` on allocation-only histories,
+// `C10.buddy.with_free` (no mapped page in a free block, free blocks disjoint) after every step of a
+// history with frees on a power-of-two device (the merge-bit defect is repaired); c10.go checks the
+// same on its own histories.
 
 import (
 	"fmt"
@@ -148,6 +150,9 @@ func (c *c10dCase) allocOracle(pages []uint64, bl [][2]uint64) {
 		}
 		c.handed[p] = true
 	}
+	if c.hasFree && c.pow2 {
+		c.freeOracle()
+	}
 	if c.hasFree || !c.pow2 {
 		return
 	}
@@ -219,6 +224,9 @@ func (c *c10dCase) free(b *c10dBuf) {
 	}
 	b.freed = true
 	c.answer("ok")
+	if c.pow2 {
+		c.freeOracle()
+	}
 }
 
 func (c *c10dCase) rmpage(b *c10dBuf, i int) {
@@ -240,6 +248,25 @@ func (c *c10dCase) rmpage(b *c10dBuf, i int) {
 	b.gone[i] = true
 	b.holes = true
 	c.answer("ok")
+	if c.pow2 {
+		c.freeOracle()
+	}
+}
+
+// freeOracle: the statement of buddy_disjoint_full_holds on the real state of a history with frees
+// (power-of-two device): no mapped page inside a free block, free blocks pairwise disjoint.
+func (c *c10dCase) freeOracle() {
+	if c.failed {
+		return
+	}
+	lf, ov := c.defects()
+	c.r.Checked("buddy.with_free")
+	if lf || ov {
+		c.failed = true
+		c.done = true
+		c.r.Failf("C10.buddy.with_free", c.line()+"   [driver ops: "+strings.Join(c.drvOps, " ; ")+"]",
+			"live page inside a free block=%v, free blocks overlap=%v", lf, ov)
+	}
 }
 
 // liveInFree: does a mapped physical page lie inside a free block / do two free blocks overlap?
@@ -395,7 +422,7 @@ func c10dRandom(r *Run, rng *Rng, idx int) {
 }
 
 func runC10Deep(r *Run, rng *Rng, replay string) {
-	// (a) the listed finding: three 1-page allocations, free the third
+	// (a) the repaired finding: three 1-page allocations, free the third
 	for _, gp := range []int{4, 8, 16, 64} {
 		c := newC10dCase(r, 4, gp, true)
 		c.alloc(1)
